@@ -46,11 +46,11 @@ def bounds(tier):
             'types': 'all %d message struct definitions of the shipped dialect packages' % len(_state.get('msgs', [])),
             'round_trip': 'as C03: every field value symbolic; strings of length 2 (+ declared+1 for short single-string messages; one over-long string at a time for multi-string messages); both versions',
             'decode': ('payload lengths {0,1,base-1,base,ext,ext+1,255} (v2) and {0,base-1,base,base+1} (v1)' if tier == 'quick'
-                       else 'every payload length 0..ext+2 and 254,255,256,300 (v2); {0,1,base-1,base,base+1,ext,255} (v1)') +
+                       else 'types without strings: every payload length 0..ext+2 and 254,255,256,300; types with strings: 0..3, base-2..base+1, ext-1..ext+2, the offsets around each string\'s start and end, 255, 300 (v2); {0,1,base-1,base,base+1,ext,255} (v1)') +
                       '; every payload byte and every spare-capacity byte symbolic; caller buffer capacity = max(len, ext)+2; '
                       'messages whose string fields give more than 64 NUL-position combinations (the scan forks per string byte): only lengths that end before/inside the first string (quick: 0, 1, first+1; thorough: 0..first+2)',
             'appended_zeros': 'k = 1 (quick) / 1 at every length and 7 at the boundary lengths (thorough)',
-            'removed_zeros': 'payload assumed to end in z zero bytes, which are removed: (len,z) = (base,1),(ext,2) (quick); more pairs incl. all-but-one byte (thorough)'}
+            'removed_zeros': 'payload assumed to end in z zero bytes, which are removed: (len,z) = (base,1),(ext,2) (quick, and types with strings); more pairs incl. all-but-one byte (thorough, types without strings); not for string-heavy types'}
 
 
 OUTSIDE = ['payloads longer than 300 bytes', 'user structs other than the shipped ones']
